@@ -151,6 +151,11 @@ func c11Generate(seed int64) genCase {
 	}
 	src := sb.String()
 	usesCmd = strings.Contains(src, "lines:c")
+	if usesCmd {
+		// standard input shared with a command is outside the fragment (os/exec drains a non-file
+		// Stdin into the child): no "-" operand through ARGV either
+		src = strings.ReplaceAll(src, `ARGV[1] = "-"`, `ARGV[1] = "in1"`)
+	}
 	cs := genCase{Family: "bookkeeping", Src: src}
 	cs.Env.Files = map[string]string{
 		"in0": c11Input(rng, rng.Intn(6), true),
